@@ -84,7 +84,7 @@ impl Prop for C19 {
     }
     fn rule(&self) -> &'static str {
         "one run = two worlds fed the same program of 6-14 operations (backup of an edited source, forget, repacking prune, check with and without read-data, full read-back of a snapshot, get a snapshot by full id): in world C the operations go alternately through a handle with a cache directory on tmpfs and through an uncached handle on the same SimStore \
-         (so the repository changes behind the cache), with cache faults planted between operations (entry truncated / extended / deleted, entry for an id the store never had, non-hex names, -tmp- leftovers, a directory of another repository id); in world U every operation uses an uncached handle. \
+         (so the repository changes behind the cache), with cache faults planted between operations (entry truncated / extended / deleted / replaced by a directory so that reading it fails, entry for an id the store never had, non-hex names, -tmp- leftovers, a directory of another repository id); in world U every operation uses an uncached handle. \
          Oracles per operation: same Ok/Err class and same logical result (set of snapshot trees listed, check verdict, read-back verdict) in both worlds; at the end both repositories read back equal to the models and check clean; after every operation that lists snapshots and index through the cached handle, the cache holds no snapshot or index entry that the store lacks or that has another size. \
          evaluations = operations compared; non-trivial = a planted fault concerned an entry that a later cached operation had to read or clean up; distinct = hash(program, faults)"
     }
@@ -298,7 +298,7 @@ impl Prop for C19 {
                         let nf = fault_rng.usize(3);
                         for _ in 0..nf {
                             planted_total += 1;
-                            match fault_rng.usize(7) {
+                            match fault_rng.usize(8) {
                                 0 if !entries.is_empty() => {
                                     let (p, size) = &entries[fault_rng.usize(entries.len())];
                                     let f = rd.join(p);
@@ -320,6 +320,14 @@ impl Prop for C19 {
                                     let (p, _) = &entries[fault_rng.usize(entries.len())];
                                     let _ = std::fs::remove_file(rd.join(p));
                                     rep.fire("cache_entry_deleted", 1);
+                                }
+                                7 if !entries.is_empty() => {
+                                    // the entry cannot be read at all (EISDIR; stands for EACCES / EIO): a directory in its place
+                                    let (p, _) = &entries[fault_rng.usize(entries.len())];
+                                    let f = rd.join(p);
+                                    if std::fs::remove_file(&f).is_ok() && std::fs::create_dir(&f).is_ok() {
+                                        rep.fire("cache_entry_replaced_by_a_directory", 1);
+                                    }
                                 }
                                 3 => {
                                     let fake = hex::encode(fault_rng.bytes(32));
